@@ -30,6 +30,9 @@ struct Case
     int nth = 2;
     std::vector<Req> reqs;
     int destroy_mutex_after = -1;    // thread 0 destroys the mutex after issuing all requests and this many steps (-1: at the end)
+    // the requester move-assigns the mutex into another mutex object (which has a small history of its own: one read request)
+    // before issuing request number move_before; all later requests go to that object.  The request order is one order.
+    int move_before = -1;
 };
 
 static Case decode(Tape& t)
@@ -51,6 +54,7 @@ static Case decode(Tape& t)
         c.reqs.push_back(r);
     }
     c.destroy_mutex_after = t.chance(1, 2) ? static_cast<int>(t.below(6)) : -1;
+    c.move_before = (n >= 2 && t.chance(1, 3)) ? 1 + static_cast<int>(t.below(static_cast<std::uint32_t>(n - 1))) : -1;
     return c;
 }
 
@@ -67,7 +71,7 @@ static std::string describe(tape_t const& tape)
            << (r.action == 0 ? "start" : r.action == 1 ? "drop_unstarted" : "start+copy_of_sender") << " delay" << r.start_delay << " hold" << r.hold
            << (r.copy_wrapper ? " copy_wrapper" : "") << (r.keep_op_state ? " op_state_kept_alive" : "") << "\"";
     }
-    os << "], \"destroy_mutex_after_steps\": " << c.destroy_mutex_after << ", \"schedule_tape_from\": " << t.pos << "}";
+    os << "], \"mutex_move_assigned_before_request\": " << c.move_before << ", \"destroy_mutex_after_steps\": " << c.destroy_mutex_after << ", \"schedule_tape_from\": " << t.pos << "}";
     return os.str();
 }
 
@@ -177,10 +181,21 @@ static Outcome run(tape_t const& tape)
     std::vector<std::shared_ptr<void>> kept_op_states;
     long long kept = 0;
 
+    // the other mutex object: it has seen one read request of its own (dropped unstarted at the end)
+    mutex_t other(-1);
+    std::optional<decltype(std::declval<mutex_t&>().read())> other_read;
+    if (c.move_before >= 0) other_read.emplace(other.read());
+    mutex_t* cur = mtx.get();
     s.add([&] {
         for (std::size_t i = 0; i < n; ++i)
         {
-            if (c.reqs[i].write) wsend[i].emplace(mtx->readwrite()); else rsend[i].emplace(mtx->read());
+            if (static_cast<int>(i) == c.move_before)
+            {
+                other = std::move(*mtx);    // move assignment: `other` continues the request chain of *mtx
+                cur = &other;
+                vt::step();
+            }
+            if (c.reqs[i].write) wsend[i].emplace(cur->readwrite()); else rsend[i].emplace(cur->read());
             issued[i] = 1;
             vt::step();
         }
@@ -308,6 +323,7 @@ static Outcome run(tape_t const& tape)
     if (drop) out.tags.push_back("has:unstarted_drop");
     if (kept) out.tags.push_back("has:op_state_outlives_access");
     if (c.destroy_mutex_after >= 0) out.tags.push_back("has:mutex_destroyed_early");
+    if (c.move_before >= 0) out.tags.push_back("has:mutex_move_assigned_mid_history");
     out.tags.push_back("groups:" + std::to_string(ngroups));
     return out;
 }
